@@ -78,8 +78,8 @@ FINDINGS = [
     ("C27-KF3", ("noconv",)),
     ("C27-KF4", ("enumtype",)),
     ("C27-KF5", ("charlit",)),
-    ("C27-KF6", ("littype",)),
-    ("C27-KF7", ("optypes", "sizet")),
+    ("C27-KF6", ("littype", "sizet")),  # sizeof's result type is repaired by the same patch (only visible once KF3 is fixed)
+    ("C27-KF7", ("eqprec",)),  # masked by KF1 (every comparison raises) until the operators patch is applied
 ]
 
 # what ppci does when the modelled evaluator stops: kind -> accepted (exception type, innermost frame | None, text fragment | None)
@@ -422,8 +422,11 @@ def open_quirks(open_ids):
 
 def predict(case, Q):
     """Outcome predicted by the defect model with quirks Q -> ("ok", obs) | ("exc", kind)."""
+    expr = case["expr"]
+    if "eqprec" in Q and case.get("minparen"):
+        expr = cc.eqprec_shape(expr)
     try:
-        t, v = cc.model_eval(case["expr"], enum_map(case), Q)
+        t, v = cc.model_eval(expr, enum_map(case), Q)
     except cc.ModelExc as e:
         return ("exc", e.kind)
     if not isinstance(v, int):
